@@ -217,6 +217,19 @@ func vfSettle(g *vfGW) {
 		}
 	}
 	vsched.Quiesce()
+	// a session whose write loop the server has shut down (slow consumer: outbound queue over the limit)
+	// has lost its stream; the peer sees the connection die, i.e. the read side ends as well
+	for _, c := range g.w.clients {
+		if s := c.session(); s != nil && !c.closed && !c.ended {
+			s.lock.Lock()
+			dead := s.grpcnode == nil
+			s.lock.Unlock()
+			if dead {
+				c.Disconnect()
+			}
+		}
+	}
+	vsched.Quiesce()
 	// let idle topics unload and deferred notifications fire
 	vsched.Advance(30 * time.Second)
 }
@@ -410,6 +423,31 @@ func vfC14Scenarios() []vfScenario {
 			g.post(tr, "x1", "sub", g.grp, "")
 			g.cl["x1"].Disconnect()
 		}, nil),
+		// slow consumer: a session whose connection has stopped taking data is evicted from the topic when
+		// its queue is full, while it leaves / another member publishes
+		vfRaceScenario("slow-consumer", [2]int{1, 2}, false, func(g *vfGW, tr *[]vfReqTrack) {
+			vsched.Zone(false)
+			g.cl["mb"].gate = make(chan struct{})
+			for i := 0; i < sendQueueLimit+32; i++ {
+				if code, _ := g.cl["o1"].Req(`{"pub":{"id":"$ID","topic":"%s","content":"fill %d"}}`, g.grp, i); code != 202 {
+					vsched.Fail("harness", fmt.Sprintf("filler publish %d: %d", i, code))
+				}
+			}
+			for _, cn := range []string{"o1", "ma", "x1", "r1"} {
+				g.cl[cn].Take()
+			}
+			vsched.Zone(true)
+			g.post(tr, "o1", "pub", g.grp, "")
+			g.post(tr, "mb", "leave", g.grp, "")
+			g.post(tr, "ma", "pub", g.grp, "")
+			vsched.Quiesce()
+			vsched.Zone(false)
+			vsched.Close(g.cl["mb"].gate) // the connection drains at last
+		}, func(g *vfGW, obs *vfRaceObs) {
+			stuck := g.cl["mb"]
+			att := stuck.session() != nil && stuck.session().getSub(g.grp) != nil
+			obs.Outcome += fmt.Sprintf(",stuck-attached=%v,stuck-ended=%v", att, stuck.ended)
+		}),
 		// last two p2p users unsubscribe concurrently, one re-subscribes
 		vfRaceScenario("p2p-unsub-unsub-resub", [2]int{1, 2}, true, func(g *vfGW, tr *[]vfReqTrack) {
 			g.post(tr, "o1", "leave", g.users["m"].id(), `,"unsub":true`)
